@@ -105,7 +105,18 @@ LimitCounts(ur) ==
              \cup UNION {LET b == MulChain(AddSmall(DivModChain(lim, IF tps = 1000 THEN <<1000>> ELSE IF tps = 1000000 THEN <<1000, 1000>> ELSE <<1000, 1000, 1000>>).q, s),
                                            IF tps = 1000 THEN <<1000>> ELSE IF tps = 1000000 THEN <<1000, 1000>> ELSE <<1000, 1000, 1000>>)
                           IN {AddSmall(b, d) : d \in {-1, 0, 1}} : s \in -2..3}
-  IN {c \in Around(RepMin(ur[2])) \cup Around(RepMax(ur[2])) \cup Around(Zero) \cup yrs \cup huge
+      \* every MsgPack timestamp format class and its boundaries: seconds 0..2^32-1 with no sub-second part (timestamp 32),
+      \* 2^32..2^34-1 or a sub-second part (timestamp 64), negative or >= 2^34 (timestamp 96); each with sub-second part
+      \* 0, one tick and one tick below the next second
+      tpsC == IF tps = 0 THEN <<>> ELSE IF tps = 1000 THEN <<1000>> ELSE IF tps = 1000000 THEN <<1000, 1000>> ELSE <<1000, 1000, 1000>>
+      perSec == IF ur[1] \in {"ns", "us", "ms", "s"} THEN 1 ELSE UnitSeconds(ur[1])
+      tsSecs == UNION {Around(x) : x \in {Zero, I32Max, Pow2(32), Pow2(33), Pow2(34), Neg(Pow2(32)), Neg(Pow2(34))}}
+      tsb == UNION {IF perSec = 1 THEN {AddSmall(MulChain(sx, tpsC), f) : f \in (IF tps = 0 THEN {0} ELSE {0, 1, tps - 1})}
+                    ELSE LET dm == DivModSmall(sx, perSec) IN {dm.q}
+                    : sx \in tsSecs}
+      \* remarkable calendar years for time_t (text archives must hold years outside the 64-bit nanosecond range)
+      yrs2 == UNION {Around(MulChain(FromInt(DaysFromCivil(y, 1, 1)), TicksPerDayChain(ur[1]))) : y \in {1677, 1678, 2262, 2263, 3000, 2106, 2107, 2514, 2515}}
+  IN {c \in Around(RepMin(ur[2])) \cup Around(RepMax(ur[2])) \cup Around(Zero) \cup yrs \cup yrs2 \cup huge \cup tsb
             \cup edge(RepMin(ur[2]), 1) \cup edge(RepMax(ur[2]), -1) : Fits(c, ur[2])}
 LimitRows ==
   LET Req(k, ur) == {[k |-> k, u |-> ur[1], r |-> ur[2], c |-> ToDec(c)] : c \in LimitCounts(ur)}
